@@ -5,6 +5,7 @@ package main
 // C14 - wire codec: decode(encode(m)) = m; hostile bytes are rejected without harm.
 //
 // Case inputs (one line; the OCaml driver runs the extracted model on exactly the same line):
+//   L <pver> <ebs> <cmd>            obs: <MaxPayloadLength(pver) of the command's type> <maxMessagePayload()>
 //   P <pver> <ebs> <msg>            payload level: BsvEncode, then Bsvdecode of those bytes on a fresh message
 //                                   obs: <bytes|E:class>|<msg' rem=<n>|E:class|->
 //   F <pver> <ebs> <net> <msg>      framed: WriteMessageWithEncodingN, then ReadMessageWithEncodingN
@@ -189,6 +190,21 @@ func (r *c14run) runCase(input, class string) error {
 	wire.SetLimits(ebs)
 	enc := wire.BaseEncoding
 	switch f[0] {
+	case "L":
+		// the MaxPayloadLength table and maxMessagePayload()
+		if len(f) != 4 {
+			return bad
+		}
+		m0, err := wire.VerifMakeEmptyMessage(f[3])
+		if err != nil {
+			return bad
+		}
+		var obs string
+		_, st := c14Guard(func() { obs = fmt.Sprintf("%d %d", m0.MaxPayloadLength(pver), wire.VerifMaxMessagePayload()) })
+		if st != "" {
+			obs = st
+		}
+		r.emit(input, obs, class)
 	case "P":
 		if len(f) != 4 {
 			return bad
@@ -370,6 +386,8 @@ func c14Class(input string) string {
 		}
 	case "D":
 		return "D:" + f[3]
+	case "L":
+		return "L:" + f[3]
 	}
 	return f[0]
 }
@@ -425,6 +443,16 @@ func runC14(c *Ctx) error {
 	}
 	run := func(input string) error { return r.runCase(input, c14Class(input)) }
 
+	// 1b. the per-type limit table: every command x every boundary protocol version x limits
+	for _, cmd := range c14AllCmds {
+		for _, pv := range c14Pvers {
+			for _, e := range []uint32{prod, 3200000000, 32000000, 1000000, 999999, 0, 4294967295} {
+				if err := run(fmt.Sprintf("L %d %d %s", pv, e, cmd)); err != nil {
+					return err
+				}
+			}
+		}
+	}
 	// 2. payload-level round trips: every modelled kind x protocol versions x field values
 	nP := c.Pick(700, 12000)
 	for _, kind := range c14Modelled {
